@@ -227,6 +227,17 @@ def _parse_iso8601_interval(text: str) -> _Interval:
         start = parse_iso8601(first)
         end = parse_iso8601(last)
 
+    if duration is not None and not isinstance(duration, Duration):
+        raise ParserError("Invalid interval")
+
+    for bound in (start, end):
+        # A duration can only be applied to a date and time,
+        # an interval without duration may also join two dates.
+        if bound is not None and not isinstance(
+            bound, date if duration is None else datetime
+        ):
+            raise ParserError("Invalid interval")
+
     return _Interval(
         cast(datetime, start), cast(datetime, end), cast(Duration, duration)
     )
